@@ -140,8 +140,9 @@ def check_edge_common(it, obj, vals, nid, cls, npose, ninfo, tag):
         raise ObFail("%s: a freshly read edge already has vertices" % tag)
 
 
-def file_obligation(variant):
-    """P4: one object per supported line, in file order; blank and unrecognised lines are skipped (with a warning)."""
+def file_obligation(variant, final_newline=True):
+    """P4: one object per supported line, in file order; blank and unrecognised lines are skipped (with a warning).  With
+    final_newline=False the last line of the file has no line terminator (a file cut off by an editor / `printf`)."""
     def fn(it):
         it.vfs = {}
         sep, end = SEPARATORS["runs-and-tabs-crlf" if variant == "messy" else "single-space"]
@@ -188,6 +189,8 @@ def file_obligation(variant):
                 continue
             lines.append(make_line(it, tag, vals, sep, end))
             order.append((tag, vals))
+        if not final_newline and lines[-1].endswith(end):
+            lines[-1] = lines[-1][:-len(end)]
         it.vfs["in.g2o"] = VFile("in.g2o", lines)
         g = it.call_classmethod(ClassRef("Graph"), "from_g2o", ["in.g2o"])
         vs, es, ps = gp(g, "_vertices"), gp(g, "_edges"), gp(g, "_g2o_params")
@@ -343,6 +346,10 @@ def run(run_, pkg, tier):
         key = "C14-P4/Graph.from_g2o/%s" % variant
         if run_.wants(key):
             tasks.append((key, "C14-P4-one-object-per-line", file_obligation(variant), "%s:%d" % (gfn._gs_module, gfn.lineno)))
+    for variant in ("plain", "messy"):
+        key = "C14-P4/Graph.from_g2o/%s/no-final-newline" % variant
+        if run_.wants(key):
+            tasks.append((key, "C14-P4-one-object-per-line", file_obligation(variant, final_newline=False), "%s:%d" % (gfn._gs_module, gfn.lineno)))
     key = "C14-P4/Graph.from_g2o/custom-edge-types"
     if run_.wants(key):
         tasks.append((key, "C14-P4-custom-edge-types", custom_types_obligation(), "%s:%d" % (gfn._gs_module, gfn.lineno)))
